@@ -165,6 +165,11 @@ def run(ch, ctx):
     bias['variants'] = STUD if stud else BUTTON
     if stud:
         bias['min_players'] = 3
+    elif ch.chance('c13.forced_stress', 1, 4):
+        # forced-bet stress: stacks that antes and blinds use up, posts by late-seated players
+        bias.update(stack_pool=(1, 1, 2, 2, 3, 5, 20), ante_kinds=('uniform', 'uniform', 'bb', 'mixed', 'none'),
+                    post_heavy=True, stack_mult=1)
+        ctx.count('forced_bet_stress_runs')
     cfg = gen_config(ch, bias)
     mon = OpenMonitor()
     world = None
